@@ -28,7 +28,10 @@ RULE_ADDED = (
               ' '
               'Round 10: 12% of the cases preceded by an advance / update that came to nothing '
               '(refused by the device, timed out, last block garbage); compressed coinbases cla'
-              'iming 2^29..2^60 bytes already hashed. ')
+              'iming 2^29..2^60 bytes already hashed. '
+              ' '
+              'Round 11: the operation that came to nothing may be an advance refused for a coi'
+              'nbase whose byte count overflows 64 bits. ')
 RULE = RULE + " " + RULE_ADDED.strip()
 ASSUMPTIONS = [
     "simulated device + fake transports trusted; the device follows framing only",
